@@ -70,6 +70,8 @@ func RunFile(path string, fns map[string]func()) (out Outcome, err error) {
 		return out, fmt.Errorf("vx: no harness %q", rp.Harness)
 	}
 	Begin(rp)
+	ResetTempDir()
+	defer ResetTempDir()
 	func() {
 		defer func() {
 			if r := recover(); r != nil {
